@@ -485,10 +485,10 @@ pub struct Soups2 {
 const DOC_ITEMS: [&str; 22] = [
     "", " ", "text", " @param", " @param x", ": msg", " @returns", " @see", " @see X::Y", " @foo", " @", "{@link X}", "{@link", "{", "}", "{@param x}", "::", "\u{3000}x", "\t\ty", " \u{a0} z", "\r", "é{@link ::}",
 ];
-const DIR_ITEMS: [&str; 20] = ["#if A", "#if", "#if (", "#if !A && B", "#if A || (B", "#elif A", "#else", "#endif", "#define A", "#define", "#undef A", "#", "# if A", "#foo", "#if A // c", "#if A /* c */", "struct P {}", "  ", "#if A &", "#endif x"];
+const DIR_ITEMS: [&str; 26] = ["#define\u{a0}A", "#if A\u{3000}&& B", "#\u{2003}if A", "#undef A\u{b}", "#if A \u{85}", "#elif\u{a0}B", "#if A", "#if", "#if (", "#if !A && B", "#if A || (B", "#elif A", "#else", "#endif", "#define A", "#define", "#undef A", "#", "# if A", "#foo", "#if A // c", "#if A /* c */", "struct P {}", "  ", "#if A &", "#endif x"];
 impl Family for Soups2 {
     fn name(&self) -> String {
-        format!("comment-and-directive-soups/all sequences of <= {} items over 22 doc-comment fragments (as lines and within one line) and over 20 directive lines, LF and CRLF", self.n)
+        format!("comment-and-directive-soups/all sequences of <= {} items over 22 doc-comment fragments (as lines and within one line) and over 26 directive lines (incl. non-ASCII white space inside directives), LF and CRLF", self.n)
     }
     fn len(&self) -> u64 {
         // chunk = (kind, first item)
@@ -543,6 +543,66 @@ impl Family for Soups2 {
             }
         }
         out.class = format!("kind{kind}:{}classes", classes.len().min(9));
+        let mut seen = std::collections::HashSet::new();
+        out.violations.retain(|v| seen.insert(v.sig.clone()));
+        out
+    }
+}
+
+
+// ---------------------------------------------------------------------------------------------------------------
+// Every kind of white space (and a few look-alikes) at every position of texts that exercise all three lexers
+
+pub struct WhitespaceKinds;
+/// the 25 characters with the Unicode White_Space property, and look-alikes that do not have it
+const WS_CHARS: [char; 30] = [
+    '\u{9}', '\u{a}', '\u{b}', '\u{c}', '\u{d}', '\u{20}', '\u{85}', '\u{a0}', '\u{1680}', '\u{2000}', '\u{2001}', '\u{2002}', '\u{2003}', '\u{2004}', '\u{2005}', '\u{2006}', '\u{2007}', '\u{2008}', '\u{2009}', '\u{200a}', '\u{2028}',
+    '\u{2029}', '\u{202f}', '\u{205f}', '\u{3000}', '\u{200b}', '\u{feff}', '\u{180e}', '\u{1c}', '\u{0}',
+];
+const WS_BASES: [&str; 6] = [
+    "module M\nstruct S { a: int32, tag(1) b: Sequence<string>? }\n",
+    "module M\n#define A\n#if A && !(B || C)\nstruct P {}\n#elif B\n#else\n#endif\n#undef A\n",
+    "module M\n/// Overview {@link S} text.\n/// @param a: the a\n///   more\n/// @returns: r\n/// @see S\ninterface I { op(a: int32) -> int32 }\nstruct S {}\n",
+    "[[allow(All)]]\nmodule M\n[cs::attr(\"a b\", c)] [deprecated(\"x\")] enum E : uint8 { A = 1, B }\n",
+    "module M::N\ninterface I : J { idempotent op(stream a: int32) -> (x: bool, y: Dictionary<string, int32>) }\ninterface J {}\n",
+    "module M\ntypealias T = Result<int32, string>\ncustom C\nunchecked enum U { V(f: T) }\ncompact struct K { k: varint62 }\n",
+];
+impl Family for WhitespaceKinds {
+    fn name(&self) -> String {
+        format!("whitespace-kinds/each of {} white-space characters and look-alikes inserted at, and substituted for, every character of {} texts (Slice source, directives, doc comments, attributes)", WS_CHARS.len(), WS_BASES.len())
+    }
+    fn len(&self) -> u64 {
+        (WS_CHARS.len() * WS_BASES.len()) as u64
+    }
+    fn describe(&self, idx: u64) -> Value {
+        json!({"character": format!("U+{:04X}", WS_CHARS[(idx as usize) % WS_CHARS.len()] as u32), "base_text": WS_BASES[(idx as usize) / WS_CHARS.len()], "positions": "every character position: inserted before it, and substituted for it"})
+    }
+    fn run(&self, idx: u64) -> CaseOut {
+        let c = WS_CHARS[(idx as usize) % WS_CHARS.len()];
+        let base: Vec<char> = WS_BASES[(idx as usize) / WS_CHARS.len()].chars().collect();
+        let mut out = CaseOut::new(hash_str(&format!("wskinds{idx}")));
+        out.steps = 0;
+        out.nontrivial = true;
+        let mut classes = std::collections::BTreeSet::new();
+        for pos in 0..=base.len() {
+            for substitute in [false, true] {
+                if substitute && pos == base.len() {
+                    continue;
+                }
+                let mut t: Vec<char> = base.clone();
+                if substitute {
+                    t[pos] = c;
+                } else {
+                    t.insert(pos, c);
+                }
+                let text: String = t.into_iter().collect();
+                classes.insert(verdict_both(&[&text], &mut out, "whitespace-kinds", &|| format!("U+{:04X} {} position {pos} of:\n{text}", c as u32, if substitute { "substituted at" } else { "inserted at" })));
+            }
+            if out.violations.len() > 4 {
+                break;
+            }
+        }
+        out.class = format!("{}classes", classes.len().min(9));
         let mut seen = std::collections::HashSet::new();
         out.violations.retain(|v| seen.insert(v.sig.clone()));
         out
@@ -999,6 +1059,7 @@ pub fn families(tier: &str) -> Vec<Box<dyn Family>> {
         Box::new(Growth::new(!quick, 16)),
         Box::new(TypeForms::new()),
         Box::new(Soups2 { n: if quick { 2 } else { 3 } }),
+        Box::new(WhitespaceKinds),
         Box::new(BinaryOptions::new(if quick { 2 } else { 6 })),
         Box::new(FileArrangements),
         Box::new(TokenSoups::new(if quick { 2 } else { 3 }, 0..10)),
@@ -1009,9 +1070,10 @@ pub fn families(tier: &str) -> Vec<Box<dyn Family>> {
     if !quick {
         v.push(Box::new(CharMutations::new(true)));
     }
-    // C05's graph families: quick = aliases, inheritance, the 10-node graphs and all 2-node containment graphs
+    // C05's graph families: quick = aliases (also with two-armed wrappers), inheritance, the 10-node graphs and all
+    // 2-node containment graphs
     for (i, f) in super::c05::families(tier).into_iter().enumerate() {
-        if !quick || matches!(i, 0 | 1 | 2 | 3 | 4) {
+        if !quick || matches!(i, 0 | 1 | 2 | 3 | 4 | 9) {
             v.push(Box::new(VerdictOnly { inner: f }));
         }
     }
